@@ -54,7 +54,10 @@ type c14Case struct {
 	RR bool `json:"rr,omitempty"`
 	// Ideal: idealised transport that notices the end of the request context
 	// at once in every state (default: HTTP/2 semantics as measured on net/http).
-	Ideal  bool  `json:"ideal,omitempty"`
+	Ideal bool `json:"ideal,omitempty"`
+	// Chunk: the transport takes the request body in pieces of this many bytes
+	// (0 = 32 KiB), so a close can land in the middle of a Send.
+	Chunk  int   `json:"chunk,omitempty"`
 	Prefix []int `json:"prefix,omitempty"` // schedule (replay)
 }
 
@@ -74,6 +77,9 @@ func (k c14Case) key() string {
 	}
 	if k.Ideal {
 		sp += "/ideal"
+	}
+	if k.Chunk > 0 {
+		sp += fmt.Sprintf("/chunk%d", k.Chunk)
 	}
 	return fmt.Sprintf("%s/%s/%s%s/%s", k.Proto, k.ReqMode, k.Client, sp, k.Handler)
 }
@@ -369,7 +375,7 @@ func c14Body(k c14Case, s *bsched.Sched) any {
 		}
 		return nil
 	})
-	tr := &memhttp.Transport{Handler: h, Proto: 2, ReqMode: k.ReqMode, Gate: s.Gate, PromptCancel: k.Ideal}
+	tr := &memhttp.Transport{Handler: h, Proto: 2, ReqMode: k.ReqMode, Gate: s.Gate, PromptCancel: k.Ideal, ReqChunk: k.Chunk}
 	tr.OnReqClosed = func(who string) {
 		if who == "handler-done" && closedSeq == 0 {
 			closedSeq = tick()
@@ -546,6 +552,15 @@ func c14Judge(c *ev.Collector, k c14Case, x *bsched.Exec, pred c14Prediction) st
 			viol("send-after-finish", "send-"+o.Class, "Send started after the call was over but returned %s (%s), not an error wrapping io.EOF; ops %s", o.Class, o.Err, opsString(obs.Ops))
 		}
 	}
+	// without cancellation a Send either succeeds or reports the end of the call
+	if !hasX && !k.Limit {
+		for _, o := range obs.Ops {
+			if o.Op == 'S' && o.Class != "ok" && o.Class != "eof" {
+				bad = true
+				viol("send-outcome", "send-"+o.Class, "Send returned %s (%s): without cancellation a Send succeeds or fails with an error wrapping io.EOF; ops %s", o.Class, o.Err, opsString(obs.Ops))
+			}
+		}
+	}
 	// Receive sequence and stickiness
 	ri := 0
 	failed := false
@@ -664,6 +679,20 @@ func c14Cases(thorough bool) []c14Case {
 						out = append(out, c14Case{Proto: p, ReqMode: m, Client: w, Handler: h, Bound: 1, Limit: true})
 					}
 				}
+			}
+		}
+	}
+	// the transport takes the request in 3-byte pieces (a close can land inside a Send)
+	for _, p := range AllProtos {
+		for _, w := range words {
+			if !strings.Contains(w, "S") || strings.Contains(w, "X") || (len(w) > 3 && !thorough) {
+				continue
+			}
+			for _, h := range handlers {
+				if h.Drain {
+					continue
+				}
+				out = append(out, c14Case{Proto: p, ReqMode: memhttp.ReqEager, Client: w, Handler: h, Bound: 1, Chunk: 3})
 			}
 		}
 	}
